@@ -83,6 +83,17 @@ func Shared(k int) int {
 	return b.Each(func(v int) int { return v * 3 }) + c() + lib.Size[int]()
 }
 
+// two function-local types of the same name inside composite type arguments
+func LocalA() int {
+	type local struct{ x int8 }
+	return lib.Size[struct{ V local }]()*100 + lib.Size[[2]local]()
+}
+
+func LocalB() int {
+	type local struct{ x [4]int64 }
+	return lib.Size[struct{ V local }]()*100 + lib.Size[[2]local]()
+}
+
 func Other(k int) int {
 	type local struct{ x int8 }
 	var b lib.Box[local]
@@ -125,6 +136,8 @@ func Run(k int) int {
 	trace(p2.Use(k))
 	trace(p1.Other(k))
 	trace(p2.Other(k))
+	trace(p1.LocalA())
+	trace(p1.LocalB())
 	trace(p1.Shared(k))
 	trace(p2.Shared(k))
 	trace(lib.Size[local]())
